@@ -60,7 +60,9 @@ def ir_merge(target, other):
             ):
                 target_params[name]["default"] = other_params[name]["default"]
 
-        for name in other_params.keys() - target_params.keys():
+        for name in tuple(
+            filter(lambda key: key not in target_params, other_params.keys())
+        ):
             target_params[name] = other_params[name]
 
         target["params"] = target_params
